@@ -11,6 +11,7 @@ func init() {
 	checks["C01"] = func(c *checkCtx) { checkParser(c, "C01") }
 	checks["C03"] = func(c *checkCtx) { checkParser(c, "C03") }
 	checks["C16"] = func(c *checkCtx) { checkParser(c, "C16") }
+	checks["C09"] = func(c *checkCtx) { checkParser(c, "C09") }
 }
 
 // checkParser: for generated conflict-free grammars (no precedence), (1) the
@@ -29,6 +30,10 @@ func checkParser(c *checkCtx, prop string) {
 	c.coqObligations()
 
 	bounds := prop == "C16"
+	recovery := prop == "C09"
+	if recovery {
+		c.cov.Rule = "random sugared grammars with @error terms at any position; compiled parsers are run on sentences, edited near-sentences and random strings over the terminals and lexer ERROR tokens (thorough: every string up to length 4) and compared event for event with the runtime model WITH recovery; every run must terminate; an accepting run of a non-sentence must have delivered an Error whose token is the first one at which the input stops being a viable prefix (decided by an Earley recogniser over the productive part of the grammar); non-trivial = the run entered recovery at least once"
+	}
 	nGram := 60
 	nInputs := 30
 	if c.thorough() {
@@ -39,10 +44,10 @@ func checkParser(c *checkCtx, prop string) {
 	defer ws.close()
 	var gs []*gSpec
 	for _, txt := range corpusGrammars() {
-		ws.add(txt)
+		ws.add(txt).tag = "corpus"
 	}
 	for i := 0; i < nGram; i++ {
-		g := genGrammar(c.rng, gramOpts{maxRules: 5, maxTokens: 5})
+		g := genGrammar(c.rng, gramOpts{maxRules: 5, maxTokens: 5, allowError: recovery})
 		gs = append(gs, g)
 		s := ws.add(g.text())
 		s.tag = g
@@ -121,6 +126,32 @@ func checkParser(c *checkCtx, prop string) {
 			if k%2 == 0 && nterm > 2 {
 				addIn(mutateTokens(c.rng, w, nterm), false)
 			}
+			if recovery {
+				// random strings with bursts of lexer ERROR tokens
+				m := mutateTokens(c.rng, w, nterm)
+				for b := c.rng.intn(3); b > 0; b-- {
+					p := c.rng.intn(len(m) + 1)
+					m = append(m[:p], append([]int{1}, m[p:]...)...)
+				}
+				addIn(m, false)
+			}
+		}
+		if recovery && (c.thorough() || j.s.tag == "corpus") {
+			var rec func(prefix []int, n int)
+			rec = func(prefix []int, n int) {
+				addIn(append([]int{}, prefix...), false)
+				if n == 0 {
+					return
+				}
+				for t := 1; t < nterm; t++ {
+					rec(append(prefix, t), n-1)
+				}
+			}
+			if nterm <= 5 {
+				rec(nil, 4)
+			} else {
+				rec(nil, 3)
+			}
 		}
 		jobs = append(jobs, j)
 	}
@@ -197,13 +228,31 @@ func checkParser(c *checkCtx, prop string) {
 				impl = implOut[k]
 			}
 			model := modelOut[j][k]
-			nontrivial := len(w) > 0
+			nontrivial := len(w) > 0 && (!recovery || strings.Contains(impl, "E("))
 			c.note(j.s.name+fmt.Sprint(w), nontrivial)
 			if k == 1 && len(c.cov.Samples) < 4 {
 				c.sample(map[string]any{"grammar": j.s.loxText, "tokens": w, "parser": impl, "model": model})
 			}
 			iv := canonImpl(impl)
 			mv := canonModel(model)
+			if strings.HasPrefix(impl, "HANG") && strings.HasPrefix(model, "FUEL") {
+				c.addFinding(finding{Signature: "parse-does-not-terminate",
+					Desc:   fmt.Sprintf("parse() does not return on tokens %v (the model runs out of fuel in error recovery as well)", tokenNames(j.s.dump, w)),
+					Replay: map[string]any{"spec": j.s.loxText, "tokens": w, "token_names": tokenNames(j.s.dump, w)}})
+				continue
+			}
+			if strings.HasPrefix(impl, "PANIC") {
+				c.addFinding(finding{Signature: "parse-panics",
+					Desc:   fmt.Sprintf("parse() panics on tokens %v: %s", tokenNames(j.s.dump, w), impl),
+					Replay: map[string]any{"spec": j.s.loxText, "tokens": w, "parser": impl, "model": model}})
+				continue
+			}
+			if recovery {
+				if strings.Contains(impl, "E(") {
+					c.distinct["rec:"+j.s.name+fmt.Sprint(w)] = true
+				}
+				checkBlame(c, j.s, w, impl)
+			}
 			if iv != mv {
 				f := finding{Signature: "runtime-model-mismatch",
 					Desc:    fmt.Sprintf("generated parser and runtime model differ on tokens %v: parser %q, model %q", w, iv, mv),
@@ -301,4 +350,49 @@ func corpusGrammars() []string {
 		out = append(out, readFile(f))
 	}
 	return out
+}
+
+// checkBlame: reading @error as a terminal only the parser can supply, for an
+// input without lexer ERROR tokens that is not a sentence the parser must
+// return false or deliver an Error, and the first Error delivered must carry
+// the first token at which the input stops being a prefix of a sentence.
+func checkBlame(c *checkCtx, s *wsSpec, w []int, impl string) {
+	for _, t := range w {
+		if t == 1 {
+			return
+		}
+	}
+	k, sentence := earleyViable(s.dump, w)
+	f := strings.Split(impl, "\t")
+	if len(f) < 3 {
+		return
+	}
+	acc := f[0] == "ACC"
+	log := f[2]
+	i := strings.Index(log, "E(T(")
+	if sentence {
+		if !acc || i >= 0 {
+			c.addFinding(finding{Signature: "sentence-not-accepted-cleanly",
+				Desc:   fmt.Sprintf("the sentence %v was rejected or went through error recovery", tokenNames(s.dump, w)),
+				Replay: map[string]any{"spec": s.loxText, "tokens": w, "parser": impl}})
+		}
+		return
+	}
+	if acc && i < 0 {
+		c.addFinding(finding{Signature: "non-sentence-accepted-silently",
+			Desc:   fmt.Sprintf("the non-sentence %v was accepted and no Error was delivered to an @error action", tokenNames(s.dump, w)),
+			Replay: map[string]any{"spec": s.loxText, "tokens": w, "parser": impl}})
+		return
+	}
+	if i < 0 {
+		return // returned false without delivering an Error: allowed
+	}
+	var ty, id int
+	fmt.Sscanf(log[i:], "E(T(%d,%d)", &ty, &id)
+	if id != k {
+		c.addFinding(finding{Signature: "error-blames-wrong-token",
+			Desc: fmt.Sprintf("on %v the first Error delivered carries token #%d, but the input stops being a prefix of a sentence at token #%d",
+				tokenNames(s.dump, w), id, k),
+			Replay: map[string]any{"spec": s.loxText, "tokens": w, "parser": impl, "first_bad_token_index": k}})
+	}
 }
